@@ -119,6 +119,12 @@ class TupleOp(Operation):
     _mapper_method: ClassVar[str] = "map_tuple_op"
     unpacked_args_to_init: ClassVar[bool] = True
 
+    def __init__(self, *operands, variable_name=None):
+        # matchpy rebuilds operations as type(op)(*new_operands,
+        # variable_name=...), so the operands arrive unpacked.
+        object.__setattr__(self, "_operands", tuple(operands))
+        object.__setattr__(self, "variable_name", variable_name)
+
     @property
     def operands(self):
         return self._operands
